@@ -49,6 +49,10 @@ pub struct Case {
     pub c2s: Vec<u8>,
     pub s2c: Vec<u8>,
     pub rt_seed: u64,
+    /// the connector reports itself not ready (Pending) for as long as the connection it handed out is alive:
+    /// a live connection must not depend on the connector
+    #[serde(default)]
+    pub gated_connector: bool,
 }
 
 pub fn strategy() -> BoxedStrategy<Case> {
@@ -65,10 +69,36 @@ pub fn strategy() -> BoxedStrategy<Case> {
                 3 => Just(Step::Kill),
                 1 => (1u16..500).prop_map(Step::Idle),
             ];
-            (proptest::collection::vec(att, 1..8), proptest::collection::vec(step, 1..=12), pipe_schedule(), pipe_schedule(), any::<u64>())
-                .prop_map(move |(attempts, steps, c2s, s2c, rt_seed)| Case { lazy, attempts, steps, connect_timeout_ms: cto, c2s, s2c, rt_seed })
+            (proptest::collection::vec(att, 1..8), proptest::collection::vec(step, 1..=12), pipe_schedule(), pipe_schedule(), any::<u64>(), proptest::bool::weighted(0.3))
+                .prop_map(move |(attempts, steps, c2s, s2c, rt_seed, gated_connector)| Case { lazy, attempts, steps, connect_timeout_ms: cto, c2s, s2c, rt_seed, gated_connector })
         })
         .boxed()
+}
+
+/// Connector wrapper whose readiness is withheld while the connection it produced is alive.
+#[derive(Clone)]
+struct Gated<C> {
+    inner: C,
+    live: Arc<std::sync::atomic::AtomicBool>,
+    gated: bool,
+}
+impl<C> tower::Service<http::Uri> for Gated<C>
+where
+    C: tower::Service<http::Uri>,
+{
+    type Response = C::Response;
+    type Error = C::Error;
+    type Future = C::Future;
+    fn poll_ready(&mut self, cx: &mut std::task::Context<'_>) -> std::task::Poll<Result<(), Self::Error>> {
+        if self.gated && self.live.load(Ordering::SeqCst) {
+            // not ready, and nobody will wake us: whoever depends on this hangs
+            return std::task::Poll::Pending;
+        }
+        self.inner.poll_ready(cx)
+    }
+    fn call(&mut self, u: http::Uri) -> Self::Future {
+        self.inner.call(u)
+    }
 }
 
 #[derive(Debug)]
@@ -93,6 +123,8 @@ pub fn run(c: &Case, o: &mut Outcome) -> Result<(), Failure> {
         let router = tonic::transport::Server::builder().add_service(vt::raw_server::RawServer::new(sh2.clone()));
         let srv = tokio::spawn(async move { router.serve_with_incoming(incoming).await });
         let script = Arc::new(case.attempts.clone());
+        let live_for_connector = Arc::new(std::sync::atomic::AtomicBool::new(false));
+        let live_shared = live_for_connector.clone();
         let connector = {
             let net = net2.clone();
             let inv = inv2.clone();
@@ -100,10 +132,14 @@ pub fn run(c: &Case, o: &mut Outcome) -> Result<(), Failure> {
                 let k = inv.fetch_add(1, Ordering::SeqCst);
                 let what = script[k % script.len()];
                 let net = net.clone();
+                let live2 = live_for_connector.clone();
                 async move {
                     use std::io::{Error, ErrorKind};
                     match what {
-                        Attempt::Succeed => net.open().map(|(c, _)| TokioIo::new(c)),
+                        Attempt::Succeed => net.open().map(|(c, _)| {
+                            live2.store(true, Ordering::SeqCst);
+                            TokioIo::new(c)
+                        }),
                         Attempt::Refused => Err::<TokioIo<PipeEnd>, _>(Error::new(ErrorKind::ConnectionRefused, "refused")),
                         Attempt::Reset => Err(Error::new(ErrorKind::ConnectionReset, "reset")),
                         Attempt::TimedOut => Err(Error::new(ErrorKind::TimedOut, "timed out")),
@@ -113,6 +149,8 @@ pub fn run(c: &Case, o: &mut Outcome) -> Result<(), Failure> {
                 }
             })
         };
+        let live = live_shared.clone();
+        let connector = Gated { inner: connector, live: live.clone(), gated: case.gated_connector };
         let mut ep = tonic::transport::Endpoint::from_static("http://pipe.test");
         if let Some(t) = case.connect_timeout_ms {
             ep = ep.connect_timeout(Duration::from_millis(t as u64));
@@ -162,6 +200,7 @@ pub fn run(c: &Case, o: &mut Outcome) -> Result<(), Failure> {
                     if let Some(h) = net2.conns.lock().unwrap().last() {
                         h.kill();
                     }
+                    live.store(false, Ordering::SeqCst);
                 }
                 Step::Idle(ms) => tokio::time::sleep(Duration::from_millis(*ms as u64)).await,
             }
@@ -267,6 +306,7 @@ pub fn run(c: &Case, o: &mut Outcome) -> Result<(), Failure> {
     }
     let inv = invocations.load(Ordering::SeqCst);
     ensure!(inv == used, "C14/connector-invocations", "{inv} connector invocations, model says {used}");
+    o.label_if(c.gated_connector, "connector_not_ready_while_connected");
     o.label_if(c.lazy, "lazy");
     o.label_if(!c.lazy, "eager");
     o.label_if(recoveries > 0, "recovery");
